@@ -51,10 +51,35 @@ theorem methSem_reflected_alpha (acc : Bool) (b : BinFn) (m : Meth) (h : reflect
       simp only [methSem, spec, Bool.not_true, Bool.false_eq_true, if_false] <;>
       (congr 1; funext i j; simp only [madd, smul]; ring)
 
+theorem methSem_reflected_alpha_exact (acc : Bool) (b : BinFn) (m : Meth) (h : reflectedAlphaExact acc b m = true)
+    (X A : Mat α n n) (a : α) : methSem acc m A X (some a) = spec b X A (some a) := by
+  cases acc <;> cases b <;> cases m <;> simp [reflectedAlphaExact] at h <;>
+    simp only [methSem, spec, Bool.not_true, Bool.false_eq_true, if_false] <;>
+    (congr 1; funext i j; simp only [madd, smul]; ring)
+
 end LinOp.C15
 
 namespace LinOp.C15
 variable {α : Type} [CommRing α] {n : Nat}
+
+theorem evalBinary_second_alpha_exact (T : Tables) (c : String) (e : String × String)
+    (h : secondEntryAlphaExact T c e = true) (a0 : Arg) (h0 : a0.plain = true) (X A : Mat α n n) (a : α) :
+    ∃ b, BinFn.ofName e.1 = some b ∧ evalBinary T e.1 a0 (.op c) X A (some a) = spec b X A (some a) := by
+  simp only [secondEntryAlphaExact, Bool.and_eq_true, beq_iff_eq] at h
+  obtain ⟨hl, hm⟩ := h
+  cases hr : resolve T.classes c e.2 with
+  | none => simp [hr] at hm
+  | some d =>
+    cases hb : BinFn.ofName e.1 with
+    | none => simp [hr, hb] at hm
+    | some b =>
+      cases hmm : Meth.ofName e.2 with
+      | none => simp [hr, hb, hmm] at hm
+      | some m =>
+        simp only [hr, hb, hmm] at hm
+        refine ⟨b, rfl, ?_⟩
+        simp only [evalBinary, dispatch_op_second T c e.1 e.2 d a0 [] (some a) h0 (by simp) hl hr, hmm, if_true]
+        exact methSem_reflected_alpha_exact _ b m hm X A a
 
 /-! ### from a table-entry check to the meaning of the call -/
 
